@@ -15,8 +15,8 @@ Print Assumptions C05_int_exact.
 
 (** ... and beyond the 64-bit range the result is the float computation, never a wrapped integer *)
 Theorem C05_int_overflow_is_float : forall a b,
-  (in_i64 (a + b) = false -> vadd (VInt a) (VInt b) = Ok (from_float (fadd (f_of_Z a) (f_of_Z b)))) /\
-  (in_i64 (a * b) = false -> vmul (VInt a) (VInt b) = Ok (from_float (fmul (f_of_Z a) (f_of_Z b)))).
+  (in_i64 (a + b) = false -> vadd (VInt a) (VInt b) = Ok (VFloat (fadd (f_of_Z a) (f_of_Z b)))) /\
+  (in_i64 (a * b) = false -> vmul (VInt a) (VInt b) = Ok (VFloat (fmul (f_of_Z a) (f_of_Z b)))).
 Proof. intros; split; [apply vadd_int_overflow | apply vmul_int_overflow]. Qed.
 Print Assumptions C05_int_overflow_is_float.
 
